@@ -583,6 +583,9 @@ pub struct C03 {
 	pub restarts: Vec<(u64, u64)>,
 	closed_s_chans: BTreeSet<ChannelId>,
 	any_chan_closed: bool,
+	next_restart_loses_writes: bool,
+	/// restarts of S at which monitor updates that were written but not completed were lost
+	lossy_restarts: Vec<u64>,
 	start_cap: Option<u64>,
 	pub stats: C03Stats,
 	/// exact accounting profile: no on-chain activity expected
@@ -610,6 +613,8 @@ impl C03 {
 			restarts: vec![],
 			closed_s_chans: BTreeSet::new(),
 			any_chan_closed: false,
+			next_restart_loses_writes: false,
+			lossy_restarts: vec![],
 			start_cap: sim.c03_s_capacity(),
 			stats: C03Stats::default(),
 			failure_step: 0,
@@ -806,7 +811,11 @@ impl C03 {
 				"snapshot"
 			},
 			XOp::ResolveCut { pay, claim, cut_at, reconnect } => {
-				let cands: Vec<usize> = sim.pays.iter().filter(|p| p.state == PayState::Claimable).map(|p| p.idx).collect();
+				let mut cands: Vec<usize> = sim.pays.iter().filter(|p| p.state == PayState::Claimable).map(|p| p.idx).collect();
+				if cands.is_empty() {
+					apply(sim, spec, &Op::Pump);
+					cands = sim.pays.iter().filter(|p| p.state == PayState::Claimable).map(|p| p.idx).collect();
+				}
 				if cands.is_empty() {
 					return Ok("resolve-cut-skipped");
 				}
@@ -867,6 +876,10 @@ impl C03 {
 					self.snapshot(sim);
 				}
 				let snap = if *fresh { &0 } else { snap };
+				if !*landed {
+					let st = sim.w.persisters[S].state.lock().unwrap();
+					self.next_restart_loses_writes = st.latest.iter().any(|(c, (id, _))| st.durable.get(c).map(|d| d.0 < *id).unwrap_or(false));
+				}
 				match sim.restart(S, *snap, *landed) {
 					Ok(()) => {
 						self.after_restart(sim);
@@ -1024,6 +1037,10 @@ impl C03 {
 					}
 					self.stats.restarts += 1;
 					self.restarts.push((at, snapshot_step));
+					if std::mem::take(&mut self.next_restart_loses_writes) {
+						self.lossy_restarts.push(at);
+						self.stats.labels.insert("restart-lost-written-but-incomplete-monitor-updates".to_string());
+					}
 					// "handled and persisted": the manager snapshot was written after the event was handled and the
 					// monitor images used contain every update that was in flight when it was written (handling a
 					// terminal event issues a monitor update of its own; with asynchronous persistence it can be lost)
@@ -1383,7 +1400,9 @@ impl C03 {
 						"no-terminal-event",
 						format!("pay#{} ({:?}, api {}) has no HTLC in flight and none settled, yet S reported neither PaymentSent nor PaymentFailed at quiescence (listed: {:?}, abandoned by user: {}, restarts {:?}, sent at step {})", i, m.kind, m.api, recent.get(&m.id.0), m.abandoned, self.restarts, m.send_step),
 					)
-					.with_key(format!("no-terminal-event/{}", recent.get(&m.id.0).unwrap_or(&"unlisted"))));
+					// exact signature of a suspected defect: a crash lost monitor updates that were still in flight after
+					// the payment was sent (e.g. S had already broadcast the commitment transaction they describe)
+					.with_key(format!("no-terminal-event/{}{}", recent.get(&m.id.0).unwrap_or(&"unlisted"), if self.lossy_restarts.iter().any(|r| *r > m.send_step) { "/restart-lost-inflight-monitor-updates" } else { "" })));
 				}
 			}
 			if !m.api_ok && terminal && !m.api.contains("Ok(") {
